@@ -33,6 +33,7 @@ type scenario struct {
 	Spec     *e2e.Spec  `json:"spec"`
 	Order    []string   `json:"order"` // creation order, dependencies first
 	Warm     []string   `json:"warm,omitempty"`
+	Wipe     bool       `json:"wipe,omitempty"` // plz-out removed between the first build and the concurrent ones (the cache stays)
 	Reqs     [][]string `json:"reqs"`
 	Offsets  []int      `json:"offsets_ms"`
 	Threads  []int      `json:"threads"`
@@ -167,7 +168,7 @@ func closureOf(s *e2e.Spec, req []string) map[string]bool {
 }
 
 func genScenario(r *lib.Rng, idx int) scenario {
-	shapes := []string{"random", "chain", "same-target", "all", "shared-filegroup", "warm", "random", "random"}
+	shapes := []string{"random", "chain", "same-target", "all", "shared-filegroup", "warm", "warm-wipe", "random", "warm-wipe-all"}
 	shape := shapes[idx%len(shapes)]
 	withFail := idx%10 == 7
 	if withFail {
@@ -218,8 +219,13 @@ func genScenario(r *lib.Rng, idx int) scenario {
 		sc.Offsets = append(sc.Offsets, r.Intn(201))
 		sc.Threads = append(sc.Threads, lib.Pick(r, []int{1, 2, 4}))
 	}
-	if shape == "warm" {
+	switch shape {
+	case "warm":
 		sc.Warm = subset()
+	case "warm-wipe": // with a cache everything the first build produced is retrieved, without it is rebuilt
+		sc.Warm, sc.Wipe, sc.Cache = subset(), true, idx%2 == 0
+	case "warm-wipe-all":
+		sc.Warm, sc.Wipe, sc.Cache = append([]string{}, order...), true, true
 	}
 	for i := 0; i < 60; i++ {
 		sc.Choices = append(sc.Choices, r.Intn(1000))
@@ -362,6 +368,9 @@ func runScenario(base string, sc scenario) outcome {
 	oc := outcome{Sc: sc}
 	if len(sc.Warm) > 0 {
 		oc.WarmExit = runPlz(repo, 2, sc.KeepGo, sc.Warm, 120*time.Second).Exit
+		if sc.Wipe {
+			repo.RemovePlzOut()
+		}
 	}
 	oc.Inv = runConcurrent(repo, &sc)
 	oc.Log = repo.ReadLog()
@@ -381,8 +390,10 @@ func runScenario(base string, sc scenario) outcome {
 
 	// the reference: one clean build of the union of everything that was requested
 	union := map[string]bool{}
-	for _, l := range sc.Warm {
-		union[l] = true
+	if !sc.Wipe {
+		for _, l := range sc.Warm {
+			union[l] = true
+		}
 	}
 	for _, rq := range sc.Reqs {
 		for _, l := range rq {
@@ -496,7 +507,7 @@ func caseTerm(oc *outcome) string {
 	for _, c := range sc.Choices {
 		choices = append(choices, lib.N(uint64(c)))
 	}
-	return lib.App("Case", lib.List(ts), lib.StrList(sc.Warm), lib.List(reqs), lib.List(choices), lib.List(oks), lib.List(outs), lib.List(runs))
+	return lib.App("Case", lib.List(ts), lib.StrList(sc.Warm), lib.Bool(sc.Cache), lib.Bool(sc.Wipe), lib.List(reqs), lib.List(choices), lib.List(oks), lib.List(outs), lib.List(runs))
 }
 
 // ---------------------------------------------------------------------------------------------
@@ -507,6 +518,9 @@ func judge(c *lib.Ctx, oc *outcome) {
 	c.HistN("invocations", len(sc.Reqs))
 	c.HistN("targets", len(sc.Order))
 	c.Hist("cache", fmt.Sprint(sc.Cache))
+	if sc.Wipe {
+		c.Hist("plz-out-wiped-after-first-build", fmt.Sprintf("cache=%v", sc.Cache))
+	}
 	if oc.overlapMs > 0 {
 		c.Hist("processes-overlapped-in-time", "yes")
 	} else {
@@ -541,11 +555,26 @@ func judge(c *lib.Ctx, oc *outcome) {
 		}
 	}
 	c.HistN("commands-run-more-than-once", rer)
+	if sc.Wipe && sc.Cache {
+		// commands of the first build that a concurrent invocation wanted again and that did NOT run again: retrieved
+		retrieved := 0
+		wcl := closureOf(sc.Spec, sc.Warm)
+		for _, l := range sc.Order {
+			again := false
+			for i := range cl {
+				again = again || cl[i][l]
+			}
+			if wcl[l] && again && logs(sc.Spec.Target(l)) && counts[l] == 1 {
+				retrieved++
+			}
+		}
+		c.HistN("commands-retrieved-from-shared-cache", min(retrieved, 6))
+	}
 
 	js := map[string]any{"spec": sc.Spec, "order": sc.Order, "warm": sc.Warm, "reqs": sc.Reqs, "offsets_ms": sc.Offsets, "threads": sc.Threads,
-		"cache": sc.Cache, "shape": sc.Shape, "keep_going": sc.KeepGo, "has_fail": sc.HasFail, "choices": sc.Choices,
+		"cache": sc.Cache, "wipe": sc.Wipe, "shape": sc.Shape, "keep_going": sc.KeepGo, "has_fail": sc.HasFail, "choices": sc.Choices,
 		"invocations": oc.Inv, "action_log": oc.Log, "outputs": oc.Outs, "clean_exit": oc.CleanExit, "clean_outputs": oc.CleanOuts, "tree_diff": oc.TreeDiff}
-	key := fmt.Sprint(sc.Order, oc.CleanOuts, sc.Warm, sc.Reqs)
+	key := fmt.Sprint(sc.Order, oc.CleanOuts, sc.Warm, sc.Reqs, sc.Cache, sc.Wipe)
 	c.Case(caseTerm(oc), js, key, shared >= 1 && len(sc.Reqs) >= 2)
 
 	// the property oracle
@@ -577,13 +606,195 @@ func judge(c *lib.Ctx, oc *outcome) {
 	}
 }
 
+// ---------------------------------------------------------------------------------------------
+// focused stress: two filegroups of one package that output the SAME DIRECTORY, in different processes.
+//
+// In one process theFilegroupBuilder.mutex serialises them; across processes they take DIFFERENT target
+// flocks (fga._build.lock, fgb._build.lock), so filegroupBuilder.Build's isSameFileContent / RemoveAll /
+// RecursiveCopyOrLinkFile of plz-out/gen/p/d (filegroup.go:77-95) of one process can run inside the other's.
+// The window is wide when the output directory exists with OLDER content (both decide to replace it).
+// Oracle only (the label-keyed model excludes shared output paths: shared_output_class; the path-level
+// model of this race is Model/C31.v `Section SharedDir`, refuted by C31_refuted).
+
+type dirRace struct {
+	Files    int      `json:"files"`
+	Trial    int      `json:"trial"`
+	Control  bool     `json:"control"` // both processes build the SAME filegroup (same flock): must be fine
+	DelayMs  int      `json:"delay_ms"`
+	Exits    []int    `json:"exits"`
+	Outputs  []string `json:"outputs,omitempty"`
+	Readers  []string `json:"readers"` // what rd0 / rd1 recorded, summarised
+	FinalDir string   `json:"final_dir"`
+}
+
+func dirRaceSpec(n int, version string) *e2e.Spec {
+	p := &e2e.Pkg{Files: map[string]string{}}
+	for i := 0; i < n; i++ {
+		p.Files[fmt.Sprintf("d/f%04d", i)] = fmt.Sprintf("%s-%d\n", version, i)
+	}
+	for k, nm := range []string{"fga", "fgb"} {
+		p.Targets = append(p.Targets, &e2e.Target{Name: nm, Kind: "filegroup", Srcs: []string{"d"}})
+		p.Targets = append(p.Targets, &e2e.Target{Name: fmt.Sprintf("rd%d", k), Kind: "genrule", Srcs: []string{":" + nm},
+			Outs: []string{fmt.Sprintf("rd%d.out", k)}, Cmd: e2e.Cmd{Op: "listnames"}})
+	}
+	return &e2e.Spec{Pkgs: map[string]*e2e.Pkg{"p": p}}
+}
+
+// rewriteDir replaces every file of p/d by a new inode with new content (what an editor or a checkout does).
+func rewriteDir(repo *e2e.Repo, n int, version string) {
+	for i := 0; i < n; i++ {
+		path := filepath.Join(repo.Dir, "p", "d", fmt.Sprintf("f%04d", i))
+		tmp := path + ".new"
+		if err := os.WriteFile(tmp, []byte(fmt.Sprintf("%s-%d\n", version, i)), 0o644); err != nil {
+			panic(err)
+		}
+		if err := os.Rename(tmp, path); err != nil {
+			panic(err)
+		}
+	}
+}
+
+func summarise(listing string, n int) string {
+	lines := 0
+	for _, l := range strings.Split(listing, "\n") {
+		if strings.HasPrefix(l, "./f") {
+			lines++
+		}
+	}
+	extra := ""
+	if strings.Count(listing, "\n") != n+1 { // "." plus one line per file
+		extra = fmt.Sprintf(" (%d lines in all)", strings.Count(listing, "\n"))
+	}
+	return fmt.Sprintf("%d of %d files%s", lines, n, extra)
+}
+
+func runDirRaces(c *lib.Ctx, base string, trials, nfiles int) {
+	os.MkdirAll(base, 0o755)
+	repo := e2e.NewRepo(base, "dirrace")
+	repo.Write(dirRaceSpec(nfiles, "v0"))
+	if r := runPlz(repo, 2, false, []string{"//p:fga"}, 120*time.Second); r.Exit != 0 {
+		c.Oracle()
+		c.Fail("invocation-failed", "a single build of a directory filegroup fails: "+r.Output, map[string]any{"files": nfiles})
+		return
+	}
+	// how long one process needs to replace the stale directory: the second process starts somewhere inside
+	rewriteDir(repo, nfiles, "cal")
+	t0 := time.Now()
+	runPlz(repo, 2, false, []string{"//p:fga"}, 120*time.Second)
+	single := time.Since(t0)
+	want := ""
+	{
+		var b strings.Builder
+		b.WriteString(".\n")
+		for i := 0; i < nfiles; i++ {
+			fmt.Fprintf(&b, "./f%04d\n", i)
+		}
+		want = b.String()
+	}
+	hits := 0
+	for t := 0; t < trials; t++ {
+		control := trials >= 3 && t == trials-1
+		rewriteDir(repo, nfiles, fmt.Sprintf("t%d", t))
+		delay := time.Duration(float64(single) * 1.3 * float64(c.Rng.Intn(1000)) / 1000)
+		second := "//p:rd1"
+		if control {
+			second = "//p:rd0"
+		}
+		res := make([]invRes, 2)
+		var wg sync.WaitGroup
+		wg.Add(2)
+		go func() { defer wg.Done(); res[0] = runPlz(repo, 2, false, []string{"//p:rd0"}, 120*time.Second) }()
+		go func() {
+			defer wg.Done()
+			time.Sleep(delay)
+			res[1] = runPlz(repo, 2, false, []string{second}, 120*time.Second)
+		}()
+		wg.Wait()
+		dr := dirRace{Files: nfiles, Trial: t, Control: control, DelayMs: int(delay.Milliseconds()), Exits: []int{res[0].Exit, res[1].Exit}}
+		readers := []string{"rd0"}
+		if !control {
+			readers = append(readers, "rd1")
+		}
+		okReaders := true
+		for k, rd := range readers {
+			data, err := os.ReadFile(filepath.Join(repo.Dir, "plz-out", "gen", "p", rd+".out"))
+			switch {
+			case err != nil:
+				dr.Readers = append(dr.Readers, rd+": absent")
+			case string(data) == want:
+				dr.Readers = append(dr.Readers, rd+": complete")
+			default:
+				dr.Readers = append(dr.Readers, rd+": "+summarise(string(data), nfiles))
+				if res[k].Exit == 0 {
+					okReaders = false
+				}
+			}
+		}
+		es, _ := os.ReadDir(filepath.Join(repo.Dir, "plz-out", "gen", "p", "d"))
+		dr.FinalDir = fmt.Sprintf("%d entries", len(es))
+		for _, r := range res {
+			if r.Exit != 0 {
+				o := r.Output
+				if len(o) > 400 {
+					o = o[len(o)-400:]
+				}
+				dr.Outputs = append(dr.Outputs, o)
+			}
+		}
+		c.Oracle()
+		failed := res[0].Exit != 0 || res[1].Exit != 0
+		outcome := "fine"
+		switch {
+		case control && (failed || !okReaders):
+			outcome = "CONTROL FAILED"
+			c.Fail("same-dir-filegroup-in-two-processes-fails", fmt.Sprintf("two processes building the SAME directory filegroup (one flock): exits %v, %v", dr.Exits, dr.Readers), dr)
+		case failed:
+			outcome = "an invocation failed"
+			known := false
+			for _, o := range dr.Outputs {
+				known = known || strings.Contains(o, "directory not empty") || strings.Contains(o, "no such file or directory")
+			}
+			if known {
+				c.Fail("shared-dir-filegroups-race-invocation-fails", fmt.Sprintf("exits %v (second process started %d ms after the first): %s", dr.Exits, dr.DelayMs, strings.Join(dr.Outputs, " | ")), dr)
+			} else {
+				c.Fail("invocation-failed", fmt.Sprintf("shared directory filegroups: exits %v: %s", dr.Exits, strings.Join(dr.Outputs, " | ")), dr)
+			}
+		case !okReaders:
+			outcome = "dependent built from a partial directory"
+			c.Fail("shared-dir-filegroups-race-dependent-built-from-partial-dir", fmt.Sprintf("both exit 0 but %v (second process started %d ms after the first)", dr.Readers, dr.DelayMs), dr)
+		case len(es) != nfiles:
+			outcome = "final directory differs"
+			c.Fail("shared-dir-filegroups-race-final-dir-differs", fmt.Sprintf("both exit 0, readers complete, but plz-out/gen/p/d has %d entries, not %d", len(es), nfiles), dr)
+		}
+		if outcome != "fine" && !control {
+			hits++
+		}
+		if control {
+			c.Hist("shared-dir-filegroups-control(same filegroup)", outcome)
+		} else {
+			c.Hist("shared-dir-filegroups-race", outcome)
+		}
+		if failed {
+			// a failed filegroup removes its outputs; start the next trial from a complete stale directory
+			runPlz(repo, 2, false, []string{"//p:fga"}, 120*time.Second)
+		}
+	}
+	c.Note("shared-directory filegroup stress: %d files, %d trials, single replace %d ms, race hit %d times", nfiles, trials, single.Milliseconds(), hits)
+	os.RemoveAll(repo.Dir)
+	os.Remove(repo.LogPath)
+}
+
 func main() {
 	lib.Main("C31", func(c *lib.Ctx) {
 		c.Model("From PlzV Require Import Model.C31.", "C31.case", "C31.check")
 		c.Rule("generated repositories (1-2 packages, 3-11 targets: genrules cat/sleep+cat/const with 1-2 outs, filegroups, text_files; shapes: random DAG, chain, " +
 			"everybody builds the same target, everybody builds everything, two filegroups sharing one output file, a first single build of a subset) built by 2-4 REAL " +
 			"simultaneous `plz build` processes (start offsets 0-200 ms, -n 1/2/4, shared directory cache or none) over overlapping target subsets, then compared with one " +
-			"clean build of the union in a fresh directory; a few cases contain a failing command (correspondence only, --keep_going). " +
+			"clean build of the union in a fresh directory; a few cases contain a failing command (correspondence only, --keep_going); " +
+			"shapes warm-wipe / warm-wipe-all: a first build fills the shared cache (or there is none), plz-out is removed, then the concurrent invocations " +
+			"(with the cache every command of the first build is retrieved - the action log must still show it once -, without it runs again). " +
+			"Then an oracle-only stress: two filegroups of one package with the same source DIRECTORY (400/1500 files) over a stale output directory, their " +
+			"readers built by two processes started a random fraction of the single-process replace time apart, last trial = control with the same filegroup. " +
 			"distinct = distinct (repository, requests); non-trivial = at least one command is in the closure of two or more of the concurrent invocations")
 		base := e2e.Scratch("c31")
 		defer os.RemoveAll(base)
@@ -619,5 +830,7 @@ func main() {
 		for i := range ocs {
 			judge(c, &ocs[i])
 		}
+		// after the scenarios, alone on the machine as far as this check is concerned
+		runDirRaces(c, base+"/dirrace", c.Scale(4, 30), c.Scale(400, 1500))
 	})
 }
